@@ -422,3 +422,734 @@ Proof.
   unfold FreshAll. simpl. apply Forall_forall. intros w Hw. apply in_map_iff in Hw. destruct Hw as [k [<- _]].
   unfold Fresh, spawn. simpl. destruct k; constructor.
 Qed.
+
+(* ------------------------------------------------------------------------------------------ *)
+(* part 2: what a step can do, given Fresh                                                     *)
+(* ------------------------------------------------------------------------------------------ *)
+
+Lemma fresh_held_eq s w j o row :
+  Fresh s w -> In (j, o) (held (w_kind w) (w_pc w)) -> get_stage s j = Some row -> s_version row = s_version o -> o = row.
+Proof.
+  intros HF Hin Hr Hv. unfold Fresh in HF. rewrite Forall_forall in HF.
+  destruct (HF _ Hin) as [row' [Hr' [_ Heq]]]. simpl in *. rewrite Hr in Hr'. inversion Hr'; subst row'.
+  apply Heq. symmetry. exact Hv.
+Qed.
+
+(* a store: the row is replaced by a modification OF THE ROW ITSELF (no lost update) *)
+Lemma step_put_sem s w k j new qs p :
+  Fresh s w -> step_worker s w = Some (k, EPut j new qs, p) ->
+  exists row m base phase ok fail,
+    w_pc w = PCas j base phase m qs ok fail /\ get_stage s j = Some row /\ base = row /\ new = apply_mod m row /\
+    p = ok.
+Proof.
+  intros HF. unfold step_worker. destruct (w_pc w) eqn:Hpc; intros H; try discriminate;
+    try (destruct (w_kind w); inversion H; fail).
+  - destruct (w_kind w); try discriminate. inversion H.
+    pose proof (claim_step_effect s id i retry st) as He. rewrite H2 in He. contradiction.
+  - destruct (cas_ok s j0 base phase) eqn:Hc; inversion H; subst.
+    apply cas_ok_spec in Hc. destruct Hc as [row [Hr [Hv _]]].
+    assert (base = row) as ->.
+    { eapply fresh_held_eq; eauto. rewrite Hpc. simpl. left. reflexivity. }
+    do 6 eexists. split; [reflexivity|]. split; [exact Hr|]. split; [reflexivity|]. split; reflexivity.
+  - destruct cs; inversion H.
+Qed.
+
+Lemma step_claim_sem s w k i cl obj fr p :
+  Fresh s w -> step_worker s w = Some (k, EClaim i cl obj fr, p) ->
+  exists id retry row,
+    w_kind w = WStart id i retry /\ w_pc w = SClaim row /\ get_stage s i = Some row /\
+    claim_step s id i retry row = (EClaim i cl obj fr, p).
+Proof.
+  intros HF. unfold step_worker. destruct (w_pc w) eqn:Hpc; intros H; try discriminate;
+    try (destruct (w_kind w); inversion H; fail).
+  - destruct (w_kind w) eqn:Hk; try discriminate. inversion H. subst k.
+    destruct (claim_step s id i0 retry st) as [e0 p0] eqn:Hc. simpl in *. subst e0 p0.
+    pose proof (claim_step_claim _ _ _ _ _ _ _ _ _ _ Hc) as [-> [_ [_ [row [Hr [Hv _]]]]]].
+    assert (st = row) as ->.
+    { eapply fresh_held_eq; eauto. rewrite Hpc, Hk. simpl. left. reflexivity. }
+    exists id, retry, row. repeat split; auto.
+  - destruct (cas_ok s j base phase); inversion H.
+  - destruct cs; inversion H.
+Qed.
+
+(* ------------------------------------------------------------------------------------------ *)
+(* part 3: C04                                                                                 *)
+(* ------------------------------------------------------------------------------------------ *)
+
+Definition starts (i : nat) (s : state) : nat := length (filter (fun p => fst p =? i) (g_starts s)).
+Definition not_started (s : state) (i : nat) : bool :=
+  match get_stage s i with Some row => status_eqb (s_status row) NOT_STARTED | None => false end.
+Definition b2n (b : bool) : nat := if b then 1 else 0.
+
+(* starts so far + 1 while the stage can still be started: never increases *)
+Definition phi (i : nat) (s : state) : nat := starts i s + b2n (not_started s i).
+
+Lemma starts_qops qs s i : starts i (apply_qops s qs) = starts i s.
+Proof. unfold starts. rewrite qops_starts. reflexivity. Qed.
+
+Lemma not_started_other s e i :
+  (match e with EPut j _ _ => j <> i | EClaim j _ _ _ => j <> i | _ => True end) ->
+  not_started (apply_effect s e) i = not_started s i.
+Proof. intros H. unfold not_started. rewrite effect_stages_other by exact H. reflexivity. Qed.
+
+Lemma phi_effect s w k e p i : Fresh s w -> step_worker s w = Some (k, e, p) -> phi i (apply_effect s e) <= phi i s.
+Proof.
+  intros HF Hs. unfold phi. destruct e as [|qs|j cl obj fr|j new qs|].
+  - simpl. lia.
+  - rewrite not_started_other by exact I. simpl. rewrite starts_qops. lia.
+  - destruct (step_claim_sem _ _ _ _ _ _ _ _ HF Hs) as [id [retry [row [Hk [Hpc [Hr Hc]]]]]].
+    apply claim_step_claim in Hc. destruct Hc as [_ [-> [-> [row' [Hr' [_ [Hph _]]]]]]].
+    rewrite Hr in Hr'. inversion Hr'; subst row'. specialize (Hph eq_refl).
+    destruct (Nat.eq_dec j i) as [->|Hne].
+    + unfold not_started at 1. erewrite effect_stage_claim by exact Hr. rewrite claim_obj_status. simpl.
+      unfold not_started. rewrite Hr.
+      destruct (status_eqb (s_status (eff row)) claim_phase_zombie) eqn:Hz; simpl.
+      * unfold starts. simpl. lia.
+      * rewrite Hph. unfold claim_phase_fresh. simpl. unfold starts. simpl. rewrite Nat.eqb_refl. simpl. lia.
+    + rewrite not_started_other by exact Hne.
+      assert (starts i (apply_effect s (EClaim j cl (claim_obj row) (negb (status_eqb (s_status (eff row)) claim_phase_zombie)))) = starts i s) as ->; [|lia].
+      simpl. destruct (negb _); unfold starts; simpl; [|reflexivity].
+      destruct (j =? i) eqn:E; [apply Nat.eqb_eq in E; congruence|reflexivity].
+  - destruct (step_put_sem _ _ _ _ _ _ _ HF Hs) as [row [m [base [ph [ok [fl [Hpc [Hr [-> [-> _]]]]]]]]]].
+    assert (starts i (apply_effect s (EPut j (apply_mod m row) qs)) = starts i s) as -> by (simpl; rewrite starts_qops; reflexivity).
+    destruct (Nat.eq_dec j i) as [->|Hne].
+    + unfold not_started. erewrite effect_stage_put by exact Hr. rewrite Hr.
+      destruct (status_eqb (s_status (apply_mod m row)) NOT_STARTED) eqn:E; simpl; [|lia].
+      apply status_eqb_eq in E. apply apply_mod_not_started in E. rewrite E. simpl. lia.
+    + rewrite not_started_other by exact Hne. lia.
+  - rewrite not_started_other by exact I.
+    assert (starts i (apply_effect s ESweep) = starts i s) as -> by (simpl; destruct (is_complete (w_status s)); reflexivity). lia.
+Qed.
+
+Lemma phi_step c n i : FreshAll c -> phi i (fst (step_cfg c n)) <= phi i (fst c).
+Proof.
+  unfold FreshAll, step_cfg. intros HF.
+  destruct (nth_error (snd c) n) as [w|] eqn:Hn; [|lia].
+  destruct (step_worker (fst c) w) as [[[k e] p]|] eqn:Hs; [|lia]. simpl.
+  rewrite Forall_forall in HF. eapply phi_effect; [apply HF; eapply nth_error_In; eauto|exact Hs].
+Qed.
+
+Theorem phi_run sched i : forall c, FreshAll c -> phi i (fst (run_conc sched c)) <= phi i (fst c).
+Proof.
+  unfold run_conc. induction sched as [|n r IH]; simpl; intros c H; [lia|].
+  specialize (IH (step_cfg c n) (fresh_step c n H)). pose proof (phi_step c n i H). lia.
+Qed.
+
+(* C04_one_claim: for ANY workers and ANY schedule, a stage gets at most one NOT_STARTED -> RUNNING claim commit, and
+   none if it was not NOT_STARTED *)
+Theorem one_claim s ks sched i :
+  starts i (fst (run_conc sched (s, map spawn ks))) <= starts i s + b2n (not_started s i).
+Proof.
+  pose proof (phi_run sched i (s, map spawn ks) (fresh_spawn s ks)) as H. unfold phi in H. simpl in H. lia.
+Qed.
+
+(* a claim whose snapshot is older than the row, or whose row has left the expected phase, writes nothing *)
+Lemma stale_claim_fails s id i retry st row :
+  get_stage s i = Some row -> (s_version st <> s_version row \/ s_status row <> (if status_eqb (s_status (eff st)) claim_phase_zombie then claim_phase_zombie else claim_phase_fresh)) ->
+  fst (claim_step s id i retry st) = ENone.
+Proof.
+  intros Hr Hst. unfold claim_step.
+  destruct (fst match s_mutex (eff st) with Some k => acquire_claim s true k i mutex_claim_steals | None => (true, w_claims s) end); simpl; auto.
+  destruct (fst match s_choice (eff st) with Some g => _ | None => _ end); simpl; auto.
+  rewrite Hr.
+  destruct ((s_version row =? s_version st)%Z && _) eqn:Hc; [|reflexivity].
+  exfalso. apply andb_prop in Hc. destruct Hc as [Hv Hp]. apply Z.eqb_eq in Hv.
+  unfold claim_uses_expected_phase in Hp. simpl in Hp. apply status_eqb_eq in Hp.
+  destruct Hst as [H|H]; [apply H; auto|apply H; exact Hp].
+Qed.
+
+(* after a successful claim of stage i every other snapshot of stage i is stale: its claim fails *)
+Lemma claim_excludes_others s w k i cl obj fr p id' retry' o :
+  Fresh s w -> step_worker s w = Some (k, EClaim i cl obj fr, p) ->
+  fresh_obj s (i, o) ->
+  fst (claim_step (apply_effect s (EClaim i cl obj fr)) id' i retry' o) = ENone.
+Proof.
+  intros HF Hs [row [Hr [Hle _]]]. simpl in Hr, Hle.
+  destruct (step_claim_sem _ _ _ _ _ _ _ _ HF Hs) as [id [retry [row' [_ [_ [Hr' Hc]]]]]].
+  rewrite Hr in Hr'. inversion Hr'; subst row'.
+  apply claim_step_claim in Hc. destruct Hc as [_ [-> _]].
+  eapply stale_claim_fails.
+  - eapply effect_stage_claim. exact Hr.
+  - left. rewrite claim_obj_version. lia.
+Qed.
+
+(* a failed claim: nothing is written, and what the worker still does is re-queue itself, cancel itself, or nothing *)
+Lemma failed_claim_pc s id i retry st p :
+  claim_step s id i retry st = (ENone, p) ->
+  p = requeue_pc i retry \/ p = cancel_self_pc id i \/ p = PMark \/ p = PUnmodelled.
+Proof.
+  unfold claim_step.
+  destruct (fst match s_mutex (eff st) with Some k => acquire_claim s true k i mutex_claim_steals | None => (true, w_claims s) end); simpl.
+  2:{ intros H; inversion H; auto. }
+  destruct (fst match s_choice (eff st) with Some g => _ | None => _ end); simpl.
+  2:{ intros H; inversion H; auto. }
+  destruct (get_stage s i); [|intros H; inversion H; auto].
+  destruct (_ && _); [discriminate|]. unfold claim_conc_error_swallowed. intros H; inversion H; auto.
+Qed.
+
+(* pcs from which only queue rows and processed marks are written *)
+Fixpoint quiet_pc (p : pc) : Prop :=
+  match p with
+  | PCommits _ next => quiet_pc next
+  | PMark | PDone | PRaised | PUnmodelled => True
+  | _ => False
+  end.
+
+Fixpoint pc_pushes (p : pc) : list msg :=
+  match p with
+  | PCommits cs next => flat_map (fun c => flat_map (fun q => match q with QPush m => [m] | QMark _ => [] end) c) cs ++ pc_pushes next
+  | _ => []
+  end.
+Definition qs_pushes (qs : list qop) : list msg := flat_map (fun q => match q with QPush m => [m] | QMark _ => [] end) qs.
+
+Lemma quiet_commits cs next : quiet_pc next -> quiet_pc (commits cs next).
+Proof. destruct cs; simpl; auto. Qed.
+Lemma pushes_commits cs next : pc_pushes (commits cs next) = flat_map qs_pushes cs ++ pc_pushes next.
+Proof. destruct cs; reflexivity. Qed.
+
+Lemma quiet_step s w k e p :
+  quiet_pc (w_pc w) -> step_worker s w = Some (k, e, p) ->
+  quiet_pc p /\ exists qs, e = EQ qs /\ qs_pushes qs ++ pc_pushes p = pc_pushes (w_pc w).
+Proof.
+  unfold step_worker. destruct (w_pc w) eqn:Hpc; simpl; intros Hq H; try contradiction; try discriminate.
+  - destruct cs as [|c rest]; inversion H; subst.
+    + split; [exact Hq|]. exists []. split; reflexivity.
+    + split; [apply quiet_commits; exact Hq|]. exists c. split; [reflexivity|].
+      rewrite pushes_commits. simpl. unfold qs_pushes. rewrite app_assoc. reflexivity.
+  - inversion H; subst. split; [exact I|]. exists [QMark (kind_id (w_kind w))]. split; reflexivity.
+Qed.
+
+Lemma loser_pcs_quiet id i retry :
+  quiet_pc (requeue_pc i retry) /\ quiet_pc (cancel_self_pc id i) /\
+  pc_pushes (requeue_pc i retry) = [MStartStage i (retry + mutex_requeue_increment)] /\
+  pc_pushes (cancel_self_pc id i) = [MCancelStage i] /\ pc_pushes PMark = [].
+Proof. repeat split; reflexivity. Qed.
+
+(* EQ effects leave the stage rows, the claims and the start ledger alone *)
+Lemma eq_effect_frame s qs :
+  w_stages (apply_effect s (EQ qs)) = w_stages s /\ w_claims (apply_effect s (EQ qs)) = w_claims s /\
+  g_starts (apply_effect s (EQ qs)) = g_starts s.
+Proof. simpl. rewrite qops_stages, qops_claims, qops_starts. auto. Qed.
+
+(* ------------------------------------------------------------------------------------------ *)
+(* part 4: C11 — the claim table                                                               *)
+(* ------------------------------------------------------------------------------------------ *)
+
+Lemma find_app_none {A} (f : A -> bool) l1 l2 : find f l1 = None -> find f (l1 ++ l2) = find f l2.
+Proof. induction l1 as [|a l IH]; simpl; auto. destruct (f a); [discriminate|auto]. Qed.
+
+Lemma find_app_last_false {A} (f : A -> bool) l x : f x = false -> find f (l ++ [x]) = find f l.
+Proof. intros H. induction l as [|a l IH]; simpl; [rewrite H; reflexivity|]. destruct (f a); auto. Qed.
+
+Lemma find_map_same {A} (f : A -> bool) (g : A -> A) l :
+  (forall c, f (g c) = f c) -> find f (map g l) = option_map g (find f l).
+Proof. intros H. induction l as [|a l IH]; simpl; auto. rewrite H. destruct (f a); auto. Qed.
+
+Lemma find_map_id {A} (f : A -> bool) (g : A -> A) l :
+  (forall c, f (g c) = f c) -> (forall c, f c = true -> g c = c) -> find f (map g l) = find f l.
+Proof.
+  intros H1 H2. induction l as [|a l IH]; simpl; auto. rewrite H1.
+  destruct (f a) eqn:E; [rewrite H2 by exact E; reflexivity|auto].
+Qed.
+
+Lemma claim_is_self b k i : claim_is b k (b, k, i) = true.
+Proof. unfold claim_is. simpl. rewrite Nat.eqb_refl. destruct b; reflexivity. Qed.
+
+Lemma claim_is_diff b k b' k' i : (b, k) <> (b', k') -> claim_is b' k' (b, k, i) = false.
+Proof.
+  intros H. unfold claim_is. simpl. destruct (Bool.eqb b b') eqn:E1; simpl; auto.
+  destruct (k =? k') eqn:E2; auto. apply Bool.eqb_prop in E1. apply Nat.eqb_eq in E2. subst. congruence.
+Qed.
+
+Lemma claim_lookup_find cl b k : claim_lookup cl b k = option_map snd (find (claim_is b k) cl).
+Proof. unfold claim_lookup, claim_is. destruct (find _ cl); reflexivity. Qed.
+
+Definition owner_gone_or_complete (s : state) (o : nat) : bool :=
+  match get_stage s o with Some r => is_complete (s_status r) | None => true end.
+
+(* acquired => this stage is the owner afterwards *)
+Lemma acquire_owner s b k i steal : fst (acquire_claim s b k i steal) = true -> claim_lookup (snd (acquire_claim s b k i steal)) b k = Some i.
+Proof.
+  unfold acquire_claim. destruct (claim_lookup (w_claims s) b k) as [o|] eqn:Hl.
+  - destruct (o =? i) eqn:Eo.
+    + intros _. simpl. apply Nat.eqb_eq in Eo. subst. exact Hl.
+    + destruct (steal && _) eqn:Es; simpl; [|discriminate]. intros _.
+      rewrite claim_lookup_find in *.
+      change (fun c : bool * nat * nat => if Bool.eqb (fst (fst c)) b && (snd (fst c) =? k) then (b, k, i) else c)
+        with (fun c : bool * nat * nat => if claim_is b k c then (b, k, i) else c).
+      rewrite find_map_same.
+      * destruct (find (claim_is b k) (w_claims s)) as [c|] eqn:Hf; [|discriminate]. simpl.
+        apply find_some in Hf. destruct Hf as [_ Hc]. rewrite Hc. reflexivity.
+      * intros c. destruct (claim_is b k c) eqn:Ec; [apply claim_is_self|exact Ec].
+  - intros _. simpl. rewrite claim_lookup_find in *.
+    destruct (find (claim_is b k) (w_claims s)) eqn:Hf; [discriminate|].
+    rewrite find_app_none by exact Hf. simpl. rewrite claim_is_self. reflexivity.
+Qed.
+
+(* other keys are untouched *)
+Lemma acquire_other s b k i steal b' k' :
+  (b, k) <> (b', k') -> claim_lookup (snd (acquire_claim s b k i steal)) b' k' = claim_lookup (w_claims s) b' k'.
+Proof.
+  intros Hne. unfold acquire_claim. destruct (claim_lookup (w_claims s) b k) as [o|] eqn:Hl.
+  - destruct (o =? i); [reflexivity|]. destruct (steal && _); [|reflexivity]. simpl.
+    rewrite !claim_lookup_find.
+    change (fun c : bool * nat * nat => if Bool.eqb (fst (fst c)) b && (snd (fst c) =? k) then (b, k, i) else c)
+      with (fun c : bool * nat * nat => if claim_is b k c then (b, k, i) else c).
+    rewrite find_map_id; [reflexivity| |].
+    + intros c. destruct (claim_is b k c) eqn:Ec; [|reflexivity].
+      rewrite claim_is_diff by exact Hne. destruct c as [[cb ck] ci]. unfold claim_is in *. simpl in *.
+      apply andb_prop in Ec. destruct Ec as [E1 E2]. apply Bool.eqb_prop in E1. apply Nat.eqb_eq in E2. subst.
+      symmetry. apply (claim_is_diff b k b' k' ci Hne).
+    + intros c Hc. destruct (claim_is b k c) eqn:Ec; [|reflexivity]. exfalso.
+      destruct c as [[cb ck] ci]. unfold claim_is in *. simpl in *.
+      apply andb_prop in Ec. destruct Ec as [E1 E2]. apply Bool.eqb_prop in E1. apply Nat.eqb_eq in E2. subst.
+      apply andb_prop in Hc. destruct Hc as [E1 E2]. apply Bool.eqb_prop in E1. apply Nat.eqb_eq in E2. subst. congruence.
+  - simpl. rewrite !claim_lookup_find. rewrite find_app_last_false; [reflexivity|]. apply claim_is_diff. exact Hne.
+Qed.
+
+(* a claim is taken from another owner only by a stealing acquire, and only when that owner is gone or complete *)
+Lemma acquire_from_other s b k i steal o :
+  fst (acquire_claim s b k i steal) = true -> claim_lookup (w_claims s) b k = Some o -> o <> i ->
+  steal = true /\ owner_gone_or_complete s o = true.
+Proof.
+  unfold acquire_claim. intros H Hl Hne. rewrite Hl in H.
+  destruct (o =? i) eqn:Eo; [apply Nat.eqb_eq in Eo; congruence|].
+  unfold owner_gone_or_complete. destruct steal; simpl in *; [|discriminate].
+  destruct (match get_stage s o with Some o0 => is_complete (s_status o0) | None => true end); [auto|discriminate].
+Qed.
+
+Lemma get_with_claims cl s j : get_stage (with_claims cl s) j = get_stage s j.
+Proof. reflexivity. Qed.
+
+(* the claims after a successful claim transaction *)
+Lemma claim_tx_mutex s id i retry row cl obj fr p k :
+  claim_step s id i retry row = (EClaim i cl obj fr, p) -> s_mutex row = Some k ->
+  claim_lookup cl true k = Some i /\
+  (forall o, claim_lookup (w_claims s) true k = Some o -> o <> i -> owner_gone_or_complete s o = true).
+Proof.
+  intros Hc Hm. apply claim_step_claim in Hc.
+  destruct Hc as [_ [_ [_ [row' [_ [_ [_ [m [c [Hmd [Hcd [Hm1 [Hc1 [-> _]]]]]]]]]]]]]].
+  rewrite eff_mutex, Hm in Hmd. rewrite eff_choice in Hcd. subst m. split.
+  - subst c. destruct (s_choice row) as [g|].
+    + rewrite acquire_other by congruence. simpl. apply acquire_owner. exact Hm1.
+    + simpl. apply acquire_owner. exact Hm1.
+  - intros o Ho Hne. eapply acquire_from_other; eauto.
+Qed.
+
+Lemma claim_tx_mutex_other s id i retry row cl obj fr p k' :
+  claim_step s id i retry row = (EClaim i cl obj fr, p) -> s_mutex row <> Some k' ->
+  claim_lookup cl true k' = claim_lookup (w_claims s) true k'.
+Proof.
+  intros Hc Hm. apply claim_step_claim in Hc.
+  destruct Hc as [_ [_ [_ [row' [_ [_ [_ [m [c [Hmd [Hcd [Hm1 [Hc1 [-> _]]]]]]]]]]]]]].
+  rewrite eff_mutex in Hmd. rewrite eff_choice in Hcd. subst c.
+  assert (claim_lookup (snd m) true k' = claim_lookup (w_claims s) true k') as Hmm.
+  { subst m. destruct (s_mutex row) as [k|]; [|reflexivity]. apply acquire_other. congruence. }
+  destruct (s_choice row) as [g|]; [|exact Hmm].
+  rewrite acquire_other by congruence. simpl. exact Hmm.
+Qed.
+
+Lemma claim_tx_choice s id i retry row cl obj fr p g :
+  claim_step s id i retry row = (EClaim i cl obj fr, p) -> s_choice row = Some g ->
+  claim_lookup cl false g = Some i /\
+  (forall o, claim_lookup (w_claims s) false g = Some o -> o = i).
+Proof.
+  intros Hc Hg. apply claim_step_claim in Hc.
+  destruct Hc as [_ [_ [_ [row' [_ [_ [_ [m [c [Hmd [Hcd [Hm1 [Hc1 [-> _]]]]]]]]]]]]]].
+  rewrite eff_mutex in Hmd. rewrite eff_choice, Hg in Hcd. subst c. split.
+  - apply acquire_owner. exact Hc1.
+  - intros o Ho. destruct (Nat.eq_dec o i) as [|Hne]; [assumption|]. exfalso.
+    assert (claim_lookup (w_claims (with_claims (snd m) s)) false g = Some o) as Ho'.
+    { simpl. subst m. destruct (s_mutex row) as [k|]; [|exact Ho]. rewrite acquire_other by congruence. exact Ho. }
+    destruct (acquire_from_other _ _ _ _ _ _ Hc1 Ho' Hne) as [Hs _]. unfold choice_claim_steals in Hs. discriminate.
+Qed.
+
+Lemma claim_tx_choice_other s id i retry row cl obj fr p g' :
+  claim_step s id i retry row = (EClaim i cl obj fr, p) -> s_choice row <> Some g' ->
+  claim_lookup cl false g' = claim_lookup (w_claims s) false g'.
+Proof.
+  intros Hc Hg. apply claim_step_claim in Hc.
+  destruct Hc as [_ [_ [_ [row' [_ [_ [_ [m [c [Hmd [Hcd [Hm1 [Hc1 [-> _]]]]]]]]]]]]]].
+  rewrite eff_mutex in Hmd. rewrite eff_choice in Hcd. subst c.
+  assert (claim_lookup (snd m) false g' = claim_lookup (w_claims s) false g') as Hmm.
+  { subst m. destruct (s_mutex row) as [k|]; [|reflexivity]. apply acquire_other. congruence. }
+  destruct (s_choice row) as [g|]; [|exact Hmm].
+  rewrite acquire_other by congruence. simpl. exact Hmm.
+Qed.
+
+(* ---- the mutex invariant: a RUNNING stage with key k owns claim mutex:k ---- *)
+Definition mutex_owner_inv (s : state) : Prop :=
+  forall j row k, get_stage s j = Some row -> s_status row = RUNNING -> s_mutex row = Some k ->
+                  claim_lookup (w_claims s) true k = Some j.
+
+Definition live (s : state) : Prop := is_complete (w_status s) = false.
+
+Lemma effect_claims_frame s e :
+  live s -> (match e with EClaim _ _ _ _ => False | _ => True end) -> w_claims (apply_effect s e) = w_claims s.
+Proof.
+  intros Hl H. destruct e; simpl; try reflexivity; try contradiction.
+  - apply qops_claims.
+  - rewrite qops_claims. reflexivity.
+  - unfold live in Hl. rewrite Hl. reflexivity.
+Qed.
+
+Lemma mutex_owner_effect s w k e p :
+  Fresh s w -> live s -> step_worker s w = Some (k, e, p) -> mutex_owner_inv s -> mutex_owner_inv (apply_effect s e).
+Proof.
+  intros HF Hl Hs HI. destruct e as [|qs|i cl obj fr|i new qs|].
+  - exact HI.
+  - intros j row kk Hr. rewrite effect_stages_other in Hr by exact I. rewrite effect_claims_frame by (auto; exact I). eauto.
+  - destruct (step_claim_sem _ _ _ _ _ _ _ _ HF Hs) as [id [retry [rowi [Hk [Hpc [Hri Hc]]]]]].
+    assert (obj = claim_obj rowi) as -> by (apply claim_step_claim in Hc; tauto).
+    assert (w_claims (apply_effect s (EClaim i cl (claim_obj rowi) fr)) = cl) as Hcl by (simpl; destruct fr; reflexivity).
+    intros j row kk Hr Hst Hmx. rewrite Hcl.
+    destruct (Nat.eq_dec i j) as [->|Hne].
+    + erewrite effect_stage_claim in Hr by exact Hri. inversion Hr; subst row.
+      destruct (claim_obj_static rowi) as [_ [_ [_ [Hm _]]]]. rewrite Hm in Hmx.
+      eapply claim_tx_mutex; eauto.
+    + rewrite effect_stages_other in Hr by exact Hne.
+      pose proof (HI j row kk Hr Hst Hmx) as Hown.
+      destruct (s_mutex rowi) as [ki|] eqn:Hmi.
+      * destruct (Nat.eq_dec ki kk) as [->|Hk'].
+        -- (* same key: the running owner j is neither gone nor complete, so the claim could not have succeeded *)
+           exfalso. destruct (claim_tx_mutex _ _ _ _ _ _ _ _ _ _ Hc Hmi) as [_ Hsteal].
+           assert (j <> i) as Hji by congruence.
+           specialize (Hsteal j Hown Hji). unfold owner_gone_or_complete in Hsteal. rewrite Hr, Hst in Hsteal. discriminate.
+        -- rewrite (claim_tx_mutex_other _ _ _ _ _ _ _ _ _ kk Hc) by (rewrite Hmi; congruence). exact Hown.
+      * rewrite (claim_tx_mutex_other _ _ _ _ _ _ _ _ _ kk Hc) by (rewrite Hmi; congruence). exact Hown.
+  - destruct (step_put_sem _ _ _ _ _ _ _ HF Hs) as [rowi [m [base [ph [ok [fl [Hpc [Hri [-> [-> _]]]]]]]]]].
+    intros j row kk Hr Hst Hmx. rewrite effect_claims_frame by (auto; exact I).
+    destruct (Nat.eq_dec i j) as [->|Hne].
+    + erewrite effect_stage_put in Hr by exact Hri. inversion Hr; subst row.
+      destruct (apply_mod_static m rowi) as [_ [_ [_ [Hm _]]]]. rewrite Hm in Hmx.
+      apply apply_mod_running in Hst. eauto.
+    + rewrite effect_stages_other in Hr by exact Hne. eauto.
+  - intros j row kk Hr. rewrite effect_stages_other in Hr by exact I. rewrite effect_claims_frame by (auto; exact I). eauto.
+Qed.
+
+Lemma live_effect s e : live s -> live (apply_effect s e).
+Proof. unfold live. rewrite effect_status. auto. Qed.
+
+Lemma step_cfg_inv (P : state -> Prop) :
+  (forall s w k e p, Fresh s w -> live s -> step_worker s w = Some (k, e, p) -> P s -> P (apply_effect s e)) ->
+  forall c n, FreshAll c -> live (fst c) -> P (fst c) -> P (fst (step_cfg c n)).
+Proof.
+  intros Hstep c n HF Hl HP. unfold step_cfg.
+  destruct (nth_error (snd c) n) as [w|] eqn:Hn; [|exact HP].
+  destruct (step_worker (fst c) w) as [[[k e] p]|] eqn:Hs; [|exact HP]. simpl.
+  unfold FreshAll in HF. rewrite Forall_forall in HF. eapply Hstep; eauto. apply HF. eapply nth_error_In; eauto.
+Qed.
+
+Lemma live_step c n : live (fst c) -> live (fst (step_cfg c n)).
+Proof.
+  intros Hl. unfold step_cfg. destruct (nth_error (snd c) n) as [w|]; [|exact Hl].
+  destruct (step_worker (fst c) w) as [[[k e] p]|]; [|exact Hl]. simpl. apply live_effect. exact Hl.
+Qed.
+
+Lemma run_conc_inv (P : state -> Prop) :
+  (forall s w k e p, Fresh s w -> live s -> step_worker s w = Some (k, e, p) -> P s -> P (apply_effect s e)) ->
+  forall sched c, FreshAll c -> live (fst c) -> P (fst c) -> P (fst (run_conc sched c)).
+Proof.
+  intros Hstep. unfold run_conc. induction sched as [|n r IH]; simpl; intros c HF Hl HP; [exact HP|].
+  apply IH; [apply fresh_step, HF|apply live_step, Hl|apply step_cfg_inv; auto].
+Qed.
+
+(* C11_mutex_owner: for ANY workers (StartStage / CompleteStage / SignalStage handlers, sweeps) and ANY schedule *)
+Theorem mutex_owner_run s ks sched :
+  live s -> mutex_owner_inv s -> mutex_owner_inv (fst (run_conc sched (s, map spawn ks))).
+Proof. intros Hl HI. apply (run_conc_inv mutex_owner_inv mutex_owner_effect); auto. apply fresh_spawn. Qed.
+
+Corollary mutex_exclusive s j1 j2 r1 r2 k :
+  mutex_owner_inv s -> get_stage s j1 = Some r1 -> get_stage s j2 = Some r2 ->
+  s_status r1 = RUNNING -> s_status r2 = RUNNING -> s_mutex r1 = Some k -> s_mutex r2 = Some k -> j1 = j2.
+Proof. intros HI H1 H2 S1 S2 M1 M2. pose proof (HI _ _ _ H1 S1 M1). pose proof (HI _ _ _ H2 S2 M2). congruence. Qed.
+
+(* ---- the deferred-choice invariant: every member that ever committed NOT_STARTED -> RUNNING owns choice:g ---- *)
+Definition choice_owner_inv (s : state) : Prop :=
+  forall j jc row g, In (j, jc) (g_starts s) -> get_stage s j = Some row -> s_choice row = Some g ->
+                     claim_lookup (w_claims s) false g = Some j.
+
+Lemma effect_starts_frame s e :
+  (match e with EClaim _ _ _ true => False | _ => True end) -> g_starts (apply_effect s e) = g_starts s.
+Proof.
+  destruct e; simpl; intros H; try reflexivity.
+  - apply qops_starts.
+  - destruct fresh; [contradiction|reflexivity].
+  - rewrite qops_starts. reflexivity.
+  - destruct (is_complete (w_status s)); reflexivity.
+Qed.
+
+Lemma choice_owner_effect s w k e p :
+  Fresh s w -> live s -> step_worker s w = Some (k, e, p) -> choice_owner_inv s -> choice_owner_inv (apply_effect s e).
+Proof.
+  intros HF Hl Hs HI. destruct e as [|qs|i cl obj fr|i new qs|].
+  - exact HI.
+  - intros j jc row g Hin Hr. rewrite effect_stages_other in Hr by exact I.
+    rewrite effect_starts_frame in Hin by exact I. rewrite effect_claims_frame by (auto; exact I). eauto.
+  - destruct (step_claim_sem _ _ _ _ _ _ _ _ HF Hs) as [id [retry [rowi [Hk [Hpc [Hri Hc]]]]]].
+    assert (obj = claim_obj rowi) as -> by (apply claim_step_claim in Hc; tauto).
+    assert (w_claims (apply_effect s (EClaim i cl (claim_obj rowi) fr)) = cl) as Hcl by (simpl; destruct fr; reflexivity).
+    intros j jc row g Hin Hr Hg. rewrite Hcl.
+    destruct (Nat.eq_dec i j) as [->|Hne].
+    + erewrite effect_stage_claim in Hr by exact Hri. inversion Hr; subst row.
+      destruct (claim_obj_static rowi) as [_ [_ [_ [_ [Hch _]]]]]. rewrite Hch in Hg.
+      eapply claim_tx_choice; eauto.
+    + rewrite effect_stages_other in Hr by exact Hne.
+      assert (In (j, jc) (g_starts s)) as Hin'.
+      { simpl in Hin. destruct fr; simpl in Hin; [|exact Hin]. destruct Hin as [E|Hin]; [inversion E; congruence|exact Hin]. }
+      pose proof (HI j jc row g Hin' Hr Hg) as Hown.
+      destruct (s_choice rowi) as [gi|] eqn:Hgi.
+      * destruct (Nat.eq_dec gi g) as [->|Hg'].
+        -- exfalso. destruct (claim_tx_choice _ _ _ _ _ _ _ _ _ _ Hc Hgi) as [_ Hsame]. specialize (Hsame j Hown). congruence.
+        -- rewrite (claim_tx_choice_other _ _ _ _ _ _ _ _ _ g Hc) by (rewrite Hgi; congruence). exact Hown.
+      * rewrite (claim_tx_choice_other _ _ _ _ _ _ _ _ _ g Hc) by (rewrite Hgi; congruence). exact Hown.
+  - destruct (step_put_sem _ _ _ _ _ _ _ HF Hs) as [rowi [m [base [ph [ok [fl [Hpc [Hri [-> [-> _]]]]]]]]]].
+    intros j jc row g Hin Hr Hg. rewrite effect_starts_frame in Hin by exact I. rewrite effect_claims_frame by (auto; exact I).
+    destruct (Nat.eq_dec i j) as [->|Hne].
+    + erewrite effect_stage_put in Hr by exact Hri. inversion Hr; subst row.
+      destruct (apply_mod_static m rowi) as [_ [_ [_ [_ [Hch _]]]]]. rewrite Hch in Hg. eauto.
+    + rewrite effect_stages_other in Hr by exact Hne. eauto.
+  - intros j jc row g Hin Hr. rewrite effect_stages_other in Hr by exact I.
+    rewrite effect_starts_frame in Hin by exact I. rewrite effect_claims_frame by (auto; exact I). eauto.
+Qed.
+
+Theorem choice_owner_run s ks sched :
+  live s -> choice_owner_inv s -> choice_owner_inv (fst (run_conc sched (s, map spawn ks))).
+Proof. intros Hl HI. apply (run_conc_inv choice_owner_inv choice_owner_effect); auto. apply fresh_spawn. Qed.
+
+Corollary choice_one_winner s j1 j2 c1 c2 r1 r2 g :
+  choice_owner_inv s -> In (j1, c1) (g_starts s) -> In (j2, c2) (g_starts s) ->
+  get_stage s j1 = Some r1 -> get_stage s j2 = Some r2 -> s_choice r1 = Some g -> s_choice r2 = Some g -> j1 = j2.
+Proof. intros HI I1 I2 H1 H2 G1 G2. pose proof (HI _ _ _ _ I1 H1 G1). pose proof (HI _ _ _ _ I2 H2 G2). congruence. Qed.
+
+(* the sweep: identity on a live execution, deletes the claims of a completed one (and nothing else) *)
+Lemma sweep_live s : live s -> apply_effect s ESweep = s.
+Proof. unfold live. simpl. intros ->. reflexivity. Qed.
+Lemma sweep_complete s : is_complete (w_status s) = true -> apply_effect s ESweep = with_claims [] s.
+Proof. simpl. intros ->. reflexivity. Qed.
+
+(* ---- progress: who re-queues, who cancels, when a claim succeeds ---- *)
+Lemma acquire_succeeds s b k i steal :
+  (forall o, claim_lookup (w_claims s) b k = Some o -> o = i \/ (steal = true /\ owner_gone_or_complete s o = true)) ->
+  fst (acquire_claim s b k i steal) = true.
+Proof.
+  intros H. unfold acquire_claim. destruct (claim_lookup (w_claims s) b k) as [o|]; [|reflexivity].
+  destruct (o =? i) eqn:Eo; [reflexivity|].
+  destruct (H o eq_refl) as [->|[-> Hg]]; [rewrite Nat.eqb_refl in Eo; discriminate|].
+  unfold owner_gone_or_complete in Hg. simpl. rewrite Hg. reflexivity.
+Qed.
+
+Lemma acquire_fails s b k i steal o :
+  claim_lookup (w_claims s) b k = Some o -> o <> i -> (steal = false \/ owner_gone_or_complete s o = false) ->
+  fst (acquire_claim s b k i steal) = false.
+Proof.
+  intros Hl Hne Hs. unfold acquire_claim. rewrite Hl.
+  destruct (o =? i) eqn:Eo; [apply Nat.eqb_eq in Eo; congruence|].
+  unfold owner_gone_or_complete in Hs. destruct Hs as [->|Hs]; [reflexivity|]. rewrite Hs. destruct steal; reflexivity.
+Qed.
+
+(* C11_mutex_progress (a): a stage that loses the mutex - at the fast path or in the claim transaction - pushes
+   StartStage(retry + 1) for itself, whatever retry is (no budget on this path) *)
+Lemma mutex_loser_claim s id i retry st k o :
+  s_mutex st = Some k -> claim_lookup (w_claims s) true k = Some o -> o <> i -> owner_gone_or_complete s o = false ->
+  claim_step s id i retry st = (ENone, requeue_pc i retry).
+Proof.
+  intros Hm Hl Hne Hg. unfold claim_step. rewrite eff_mutex, Hm.
+  rewrite (acquire_fails s true k i mutex_claim_steals o Hl Hne (or_intror Hg)). reflexivity.
+Qed.
+
+Lemma requeue_step s w id i retry :
+  w_kind w = WStart id i retry -> w_pc w = requeue_pc i retry ->
+  exists k, step_worker s w = Some (k, EQ [QPush (MStartStage i (retry + mutex_requeue_increment))], PMark).
+Proof. intros Hk Hp. unfold step_worker. rewrite Hp. simpl. eexists. reflexivity. Qed.
+
+Lemma push_in_queue s m : In m (map q_msg (w_queue (push m s))).
+Proof. simpl. rewrite map_app. apply in_or_app. right. left. reflexivity. Qed.
+
+(* C11_mutex_progress (b): the claim of a NOT_STARTED stage succeeds whenever the claim is free, its own, or its owner
+   is gone or complete *)
+Lemma mutex_claim_succeeds s id i retry row k :
+  get_stage s i = Some row -> s_status row = NOT_STARTED -> s_mutex row = Some k -> s_choice row = None ->
+  (forall o, claim_lookup (w_claims s) true k = Some o -> o = i \/ owner_gone_or_complete s o = true) ->
+  exists cl p, claim_step s id i retry row = (EClaim i cl (claim_obj row) true, p) /\ claim_lookup cl true k = Some i.
+Proof.
+  intros Hr Hst Hm Hc Hown. unfold claim_step. rewrite eff_mutex, eff_choice, eff_status, Hm, Hc, Hst, Hr.
+  assert (fst (acquire_claim s true k i mutex_claim_steals) = true) as Ha.
+  { apply acquire_succeeds. intros o Ho. destruct (Hown o Ho); auto. }
+  rewrite Ha. simpl. rewrite Z.eqb_refl, Hst. simpl.
+  eexists. eexists. split; [reflexivity|]. apply acquire_owner. exact Ha.
+Qed.
+
+(* C11_choice_one_winner (losers): a member of a decided group cancels itself, at the fast path or in the claim *)
+Lemma choice_loser_claim s id i retry st g o :
+  s_mutex st = None -> s_choice st = Some g -> claim_lookup (w_claims s) false g = Some o -> o <> i ->
+  claim_step s id i retry st = (ENone, cancel_self_pc id i).
+Proof.
+  intros Hm Hg Hl Hne. unfold claim_step. rewrite eff_mutex, eff_choice, Hm, Hg. simpl.
+  assert (fst (acquire_claim (with_claims (w_claims s) s) false g i choice_claim_steals) = false) as Ha.
+  { eapply acquire_fails; [exact Hl|exact Hne|left; reflexivity]. }
+  rewrite Ha. reflexivity.
+Qed.
+
+Lemma choice_loser_claim_any s id i retry st g :
+  s_choice st = Some g ->
+  (forall cl, claim_lookup cl false g = claim_lookup (w_claims s) false g -> exists o, claim_lookup cl false g = Some o /\ o <> i) ->
+  snd (claim_step s id i retry st) = cancel_self_pc id i \/ snd (claim_step s id i retry st) = requeue_pc i retry.
+Proof.
+  intros Hg Hl. unfold claim_step. rewrite eff_choice, Hg.
+  set (m := match s_mutex (eff st) with Some k => acquire_claim s true k i mutex_claim_steals | None => (true, w_claims s) end).
+  destruct (fst m) eqn:Hm; simpl; [|right; reflexivity].
+  assert (claim_lookup (snd m) false g = claim_lookup (w_claims s) false g) as Hsame.
+  { subst m. destruct (s_mutex (eff st)); [apply acquire_other; congruence|reflexivity]. }
+  destruct (Hl _ Hsame) as [o [Ho Hne]].
+  assert (fst (acquire_claim (with_claims (snd m) s) false g i choice_claim_steals) = false) as Ha.
+  { eapply acquire_fails; [exact Ho|exact Hne|left; reflexivity]. }
+  rewrite Ha. left. reflexivity.
+Qed.
+
+Lemma cancel_self_step s w id i retry :
+  w_kind w = WStart id i retry -> w_pc w = cancel_self_pc id i ->
+  exists k, step_worker s w = Some (k, EQ [QMark id; QPush (MCancelStage i)], PMark).
+Proof. intros Hk Hp. unfold step_worker. rewrite Hp. simpl. eexists. reflexivity. Qed.
+
+(* the winner pushes one CancelStage per sibling that is still NOT_STARTED when it looks *)
+Lemma winner_cancels_siblings s id i cl g :
+  s_choice cl = Some g -> pc_pushes (sibs_pc s id i cl) = map MCancelStage (siblings_not_started s i g).
+Proof.
+  intros Hg. unfold sibs_pc. rewrite Hg, pushes_commits. unfold plan_pc. simpl. rewrite app_nil_r.
+  induction (siblings_not_started s i g) as [|j l IH]; simpl; [reflexivity|]. rewrite IH. reflexivity.
+Qed.
+
+(* ------------------------------------------------------------------------------------------ *)
+(* part 5: acquire_claim as coded                                                              *)
+(* ------------------------------------------------------------------------------------------ *)
+
+Lemma nodup_map_inj {A B} (f : A -> B) l a b : NoDup (map f l) -> In a l -> In b l -> f a = f b -> a = b.
+Proof.
+  induction l as [|x l IH]; simpl; intros Hn Ha Hb Hf; [contradiction|].
+  inversion Hn; subst. destruct Ha as [->|Ha], Hb as [->|Hb]; auto.
+  - exfalso. apply H1. rewrite Hf. apply in_map. exact Hb.
+  - exfalso. apply H1. rewrite <- Hf. apply in_map. exact Ha.
+Qed.
+
+Lemma claim_is_key b k c : claim_is b k c = true -> fst c = (b, k).
+Proof.
+  destruct c as [[cb ck] ci]. unfold claim_is. simpl. intros H. apply andb_prop in H. destruct H as [H1 H2].
+  apply Bool.eqb_prop in H1. apply Nat.eqb_eq in H2. subst. reflexivity.
+Qed.
+
+Lemma unique_key_entry cl b k c :
+  NoDup (map fst cl) -> find (claim_is b k) cl = Some c -> forall c', In c' cl -> claim_is b k c' = true -> c' = c.
+Proof.
+  intros Hn Hf c' Hin Hc'. apply find_some in Hf. destruct Hf as [Hin0 Hc0].
+  eapply nodup_map_inj; eauto. rewrite (claim_is_key _ _ _ Hc'), (claim_is_key _ _ _ Hc0). reflexivity.
+Qed.
+
+Lemma update_owner_unique cl b k i c :
+  NoDup (map fst cl) -> find (claim_is b k) cl = Some c ->
+  update_owner cl b k i (snd c) = (1, map (fun c' => if claim_is b k c' then (b, k, i) else c') cl).
+Proof.
+  intros Hn Hf. unfold update_owner.
+  assert (forall c', In c' cl -> (claim_is b k c' && (snd c' =? snd c)) = claim_is b k c') as Hsame.
+  { intros c' Hin. destruct (claim_is b k c') eqn:E; [|reflexivity].
+    rewrite (unique_key_entry _ _ _ _ Hn Hf c' Hin E). simpl. apply Nat.eqb_refl. }
+  f_equal.
+  - rewrite (filter_ext_in _ (claim_is b k)) by exact Hsame.
+    clear Hsame. revert Hn Hf. induction cl as [|a l IH]; simpl; [discriminate|].
+    intros Hn Hf. inversion Hn; subst. destruct (claim_is b k a) eqn:Ea.
+    + simpl. f_equal. assert (filter (claim_is b k) l = []) as ->; [|reflexivity].
+      apply filter_nil_iff. intros x Hx. destruct (claim_is b k x) eqn:Ex; [|reflexivity].
+      exfalso. apply H1. rewrite (claim_is_key _ _ _ Ea), <- (claim_is_key _ _ _ Ex). apply in_map. exact Hx.
+    + apply IH; auto.
+  - apply map_ext_in. intros c' Hin. rewrite Hsame by exact Hin. reflexivity.
+Qed.
+
+Arguments update_owner : simpl never.
+
+(* inside one write transaction (nothing can vanish between the INSERT OR IGNORE and the re-read) and with the
+   table's PRIMARY KEY (execution_id, claim_key), the statements of acquire_claim compute Engine.acquire_claim *)
+Theorem acquire_claim_coded_eq s b k i steal :
+  NoDup (map fst (w_claims s)) -> acquire_claim_coded s b k i steal = acquire_claim s b k i steal.
+Proof.
+  intros Hn. unfold acquire_claim_coded, acquire_claim, insert_or_ignore.
+  destruct (claim_lookup (w_claims s) b k) as [o|] eqn:Hl; simpl; [|reflexivity].
+  rewrite Hl. destruct (o =? i); [reflexivity|].
+  destruct steal; simpl; [|reflexivity].
+  destruct (get_stage s o) as [r|]; simpl.
+  - destruct (is_complete (s_status r)); [|reflexivity].
+    rewrite claim_lookup_find in Hl. destruct (find (claim_is b k) (w_claims s)) as [c|] eqn:Hf; [|discriminate].
+    simpl in Hl. inversion Hl; subst o. pose proof (update_owner_unique _ _ _ i _ Hn Hf) as Hu. unfold update_owner in Hu.
+    inversion Hu as [[Hu1 Hu2]]. rewrite Hu1, Hu2. reflexivity.
+  - rewrite claim_lookup_find in Hl. destruct (find (claim_is b k) (w_claims s)) as [c|] eqn:Hf; [|discriminate].
+    simpl in Hl. inversion Hl; subst o. pose proof (update_owner_unique _ _ _ i _ Hn Hf) as Hu. unfold update_owner in Hu.
+    inversion Hu as [[Hu1 Hu2]]. rewrite Hu1, Hu2. reflexivity.
+Qed.
+
+(* ------------------------------------------------------------------------------------------ *)
+(* executable forms of the invariants (for the non-vacuity examples) and of "a start was lost"  *)
+(* ------------------------------------------------------------------------------------------ *)
+
+Lemma get_stage_in_seqn s j row : get_stage s j = Some row -> In j (seqn (length (w_stages s))).
+Proof.
+  unfold get_stage, seqn. intros H. apply in_seq. split; [lia|]. simpl.
+  apply nth_error_Some. congruence.
+Qed.
+
+Definition mutex_owner_invb (s : state) : bool :=
+  forallb (fun j => match get_stage s j with
+                    | Some row =>
+                        negb (status_eqb (s_status row) RUNNING) ||
+                        match s_mutex row with
+                        | Some k => match claim_lookup (w_claims s) true k with Some o => o =? j | None => false end
+                        | None => true end
+                    | None => true end) (seqn (length (w_stages s))).
+
+Lemma mutex_owner_invb_ok s : mutex_owner_invb s = true -> mutex_owner_inv s.
+Proof.
+  unfold mutex_owner_invb. rewrite forallb_forall. intros H j row k Hr Hst Hm.
+  specialize (H j (get_stage_in_seqn _ _ _ Hr)). rewrite Hr, Hst, Hm in H. simpl in H.
+  destruct (claim_lookup (w_claims s) true k) as [o|]; [|discriminate]. apply Nat.eqb_eq in H. subst. reflexivity.
+Qed.
+
+Definition choice_owner_invb (s : state) : bool :=
+  forallb (fun p => match get_stage s (fst p) with
+                    | Some row => match s_choice row with
+                                  | Some g => match claim_lookup (w_claims s) false g with Some o => o =? fst p | None => false end
+                                  | None => true end
+                    | None => true end) (g_starts s).
+
+Lemma choice_owner_invb_ok s : choice_owner_invb s = true -> choice_owner_inv s.
+Proof.
+  unfold choice_owner_invb. rewrite forallb_forall. intros H j jc row g Hin Hr Hg.
+  specialize (H (j, jc) Hin). simpl in H. rewrite Hr, Hg in H.
+  destruct (claim_lookup (w_claims s) false g) as [o|]; [|discriminate]. apply Nat.eqb_eq in H. subst. reflexivity.
+Qed.
+
+Definition ready_now (s : state) (j : nat) : bool :=
+  match get_stage s j with
+  | Some st => match rr_phase (evaluate_readiness (rstage_of st) (upstream s st) (s_bypass st)) with P_READY => true | _ => false end
+  | None => false
+  end.
+
+Definition handled (ws : list worker) (id : nat) : bool := existsb (fun w => kind_id (w_kind w) =? id) ws.
+
+(* a StartStage for j that no worker of this run is handling *)
+Definition pending_start (c : cfg) (j : nat) : bool :=
+  existsb (fun r => match q_msg r with
+                    | MStartStage j' _ => (j' =? j) && negb (handled (snd c) (q_id r))
+                    | _ => false end) (w_queue (fst c)).
+
+Definition all_done (c : cfg) : bool := forallb (fun w => match w_pc w with PDone => true | _ => false end) (snd c).
+
+(* every handler returned normally (its message is acked), the stage is NOT_STARTED and READY, nothing will start it *)
+Definition lost_start (c : cfg) (j : nat) : bool :=
+  not_started (fst c) j && ready_now (fst c) j && all_done c && negb (pending_start c j).
+
+(* every handler returned normally, the stage is RUNNING with its plan commit missing, and neither a StartStage nor a
+   StartTask for it is pending *)
+Definition lost_plan (c : cfg) (j : nat) : bool :=
+  match get_stage (fst c) j with
+  | Some row => status_eqb (s_status row) RUNNING && s_plan_pending row
+  | None => false end
+  && all_done c && negb (pending_start c j)
+  && negb (existsb (fun r => match q_msg r with MStartTask j' _ => j' =? j | _ => false end) (w_queue (fst c))).
